@@ -8,11 +8,13 @@ import (
 	"math"
 	"os"
 	"path/filepath"
+	"regexp"
 	"strconv"
 	"strings"
 	"time"
 
 	"github.com/brutella/hc/accessory"
+	"github.com/brutella/hc/characteristic"
 	"github.com/brutella/hc/service"
 
 	"verif/internal/catalog"
@@ -169,6 +171,43 @@ func c14Exec(c *fw.Ctx, tm []c14Tmpl, ids []uint64) {
 }
 
 // c14WellFormed validates HAP attribute database JSON; it returns "" or the first defect.
+// c14Sized: accessories built "from arbitrary services": a service of a vendor type (a UUID with a leading zero, a
+// UUID without, or a short custom type) holding k characteristics of vendor types, followed by a library service —
+// for every k, so that every size of a service next to another one occurs; k optional characteristics added to the
+// library's television service, followed by its speaker.
+func c14Sized(max int) []c14Tmpl {
+	var out []c14Tmpl
+	for k := 0; k <= max; k++ {
+		k := k
+		out = append(out, c14Tmpl{fmt.Sprintf("sized(%d)", k), func(id uint64) *accessory.Accessory {
+			a := accessory.New(accessory.Info{Name: "Sized", ID: id}, accessory.TypeOther)
+			st := []string{"0E863F10-079E-48FF-8F27-9C2605A29F52", "E863F10A-079E-48FF-8F27-9C2605A29F52", "F1A0"}[k%3]
+			s := service.New(st)
+			for i := 0; i < k; i++ {
+				ch := characteristic.NewInt(fmt.Sprintf("0%07X-0B0C-4D0E-8F10-A1B2C3D4E5F6", 0xA00000+i))
+				ch.Format = characteristic.FormatUInt8
+				s.AddCharacteristic(ch.Characteristic)
+			}
+			a.AddService(s)
+			a.AddService(service.NewSwitch().Service)
+			return a
+		}})
+		out = append(out, c14Tmpl{fmt.Sprintf("television-plus(%d)", k), func(id uint64) *accessory.Accessory {
+			tv := accessory.NewTelevision(accessory.Info{Name: "TV", ID: id})
+			for i := 0; i < k; i++ {
+				ch := characteristic.NewInt(fmt.Sprintf("%08X-0B0C-4D0E-8F10-A1B2C3D4E5F6", 0x0B000000+i))
+				ch.Format = characteristic.FormatUInt8
+				tv.Television.AddCharacteristic(ch.Characteristic)
+			}
+			tv.Accessory.UpdateIDs()
+			return tv.Accessory
+		}})
+	}
+	return out
+}
+
+var c14UUID = regexp.MustCompile(`^([0-9A-Fa-f]{1,8}|[0-9A-Fa-f]{8}-[0-9A-Fa-f]{4}-[0-9A-Fa-f]{4}-[0-9A-Fa-f]{4}-[0-9A-Fa-f]{12})$`)
+
 func c14WellFormed(j []byte) string {
 	var db struct {
 		Accessories []map[string]json.RawMessage `json:"accessories"`
@@ -183,9 +222,9 @@ func c14WellFormed(j []byte) string {
 		n, err := strconv.ParseUint(strings.TrimSpace(string(r)), 10, 64) // exact: ids up to 2^64−1 are legal
 		return r != nil && err == nil && n >= 1
 	}
-	str := func(r json.RawMessage) bool {
+	str := func(r json.RawMessage) bool { // a type: the short form (1–8 hex digits) or a complete UUID
 		var s string
-		return r != nil && json.Unmarshal(r, &s) == nil && s != ""
+		return r != nil && json.Unmarshal(r, &s) == nil && c14UUID.MatchString(s)
 	}
 	for _, a := range db.Accessories {
 		if !posInt(a["aid"]) {
@@ -268,6 +307,19 @@ func c14Run(c *fw.Ctx) {
 	// depth 1 and 2 over all templates
 	for _, a := range tmpls {
 		for _, ia := range idAlpha {
+			idx++
+			if c.Mine(idx) {
+				c14Exec(c, []c14Tmpl{a}, []uint64{ia})
+			}
+		}
+	}
+	// services of every size 0…40 (thorough 0…130) next to another service, vendor type UUIDs
+	nsized := 40
+	if c.Thorough() {
+		nsized = 130
+	}
+	for _, a := range c14Sized(nsized) {
+		for _, ia := range []uint64{0, 7} {
 			idx++
 			if c.Mine(idx) {
 				c14Exec(c, []c14Tmpl{a}, []uint64{ia})
@@ -557,7 +609,7 @@ func init() {
 	fw.Register(&fw.Check{
 		ID:    "C14",
 		Level: "exploration",
-		Rule:  "exhaustive enumeration of container compositions: templates = every accessory constructor of the library plus a custom accessory per service constructor × {plain, hidden, primary, linked}; explicit id ∈ {auto,1,2,3,7,2^64−1}; all single accessories, all pairs (quick: first element restricted to library accessories and every 8th custom one), all triples over a reduced template set, two large compositions (40, 150 accessories), for every service constructor an accessory rebuilt with a previously published service object, accessories JSON-encoded before being added, services without characteristics in every position, and removal of rejected / member accessories followed by another add. Each container is built twice. Oracle: accepted accessories have pairwise distinct non-zero ids, instance ids distinct and non-zero per accessory, both builds give byte-identical JSON, JSON is well-formed HAP (aid/iid/type everywhere, valid format, permissions within the HAP vocabulary, linked ids resolvable). distinct_nontrivial = distinct (size, accepted count, id-mode tuple) classes Plus every history of length ≤4 (thorough ≤6) over 10 construction operations on one container (add A / B / C with explicit id, remove A / B, add services S1, S2 to A and S3 to B while under construction, link S1→S2 and S2→S1): after every operation the member list, id uniqueness and JSON well-formedness hold and the same history on fresh objects gives the same database. Plus, in a subprocess built with a scheduling point before EVERY statement of hc's packages (textual insertion through go build -overlay): every interleaving with at most 1 (thorough 2) preemptions of pairs of operations on disjoint objects — and, where the property is about served requests, of pairs of handlers on two verified connections of one accessory touching different characteristics — each side must observe exactly what it observes when the two run one after the other (module-level mutable state is what makes them differ).",
+		Rule:  "exhaustive enumeration of container compositions: templates = every accessory constructor of the library plus a custom accessory per service constructor × {plain, hidden, primary, linked}; explicit id ∈ {auto,1,2,3,7,2^64−1}; all single accessories, all pairs (quick: first element restricted to library accessories and every 8th custom one), all triples over a reduced template set, two large compositions (40, 150 accessories), for every service constructor an accessory rebuilt with a previously published service object, accessories JSON-encoded before being added, services without characteristics in every position, a vendor-typed service (UUIDs with and without a leading zero) holding k = 0…40 (thorough …130) vendor-typed characteristics next to a library service and the library's television service with k optional characteristics added, for every k, and removal of rejected / member accessories followed by another add. Each container is built twice. Oracle: accepted accessories have pairwise distinct non-zero ids, instance ids distinct and non-zero per accessory, both builds give byte-identical JSON, JSON is well-formed HAP (aid/iid/type everywhere, every type a 1–8 digit short form or a complete UUID, valid format, permissions within the HAP vocabulary, linked ids resolvable). distinct_nontrivial = distinct (size, accepted count, id-mode tuple) classes Plus every history of length ≤4 (thorough ≤6) over 10 construction operations on one container (add A / B / C with explicit id, remove A / B, add services S1, S2 to A and S3 to B while under construction, link S1→S2 and S2→S1): after every operation the member list, id uniqueness and JSON well-formedness hold and the same history on fresh objects gives the same database. Plus, in a subprocess built with a scheduling point before EVERY statement of hc's packages (textual insertion through go build -overlay): every interleaving with at most 1 (thorough 2) preemptions of pairs of operations on disjoint objects — and, where the property is about served requests, of pairs of handlers on two verified connections of one accessory touching different characteristics — each side must observe exactly what it observes when the two run one after the other (module-level mutable state is what makes them differ).",
 		Run:   c14Run,
 		Replay: func(c *fw.Ctx, raw json.RawMessage) {
 			var cas c14Case
@@ -568,7 +620,7 @@ func init() {
 					return
 				}
 			}
-			all := c14Templates()
+			all := append(c14Templates(), c14Sized(130)...)
 			var tm []c14Tmpl
 			for _, n := range cas.Tmpls {
 				for _, t := range all {
